@@ -81,7 +81,7 @@ PROPS = {
     },
     "C10": {
         "world": "dsim.worlds.midcircuit.MidCircuitWorld",
-        "tiers": {"quick": {"runs": 960, "chunk": 4, "run_cap_s": 900, "wall_cap_s": 800},
+        "tiers": {"quick": {"runs": 960, "chunk": 4, "run_cap_s": 900, "wall_cap_s": 700},
                   "thorough": {"runs": 12000, "chunk": 8, "run_cap_s": 1500, "wall_cap_s": 2700}},
         "rule": "one evaluation = one simulated run: 3-16 programs (1-5 qubits, 1-6 MEASURE/CMEASURE gates, dictionary / function / "
                 "class control, nesting depth <= 3, random initial states) executed on two long-lived backend objects: (exact) "
@@ -101,7 +101,7 @@ PROPS = {
     },
     "C01": {
         "world": "dsim.worlds.device.GateSemanticsWorld",
-        "tiers": {"quick": {"runs": 1600, "chunk": 4, "run_cap_s": 900, "wall_cap_s": 800},
+        "tiers": {"quick": {"runs": 1600, "chunk": 4, "run_cap_s": 900, "wall_cap_s": 700},
                   "thorough": {"runs": 16000, "chunk": 8, "run_cap_s": 1500, "wall_cap_s": 2700}},
         "rule": "one evaluation = one simulated run: 6-30 calls on four long-lived backend objects (cirq exact, cirq with shots, sympy, "
                 "shot-only stub): exact simulation of random circuits over the full gate set (multi-controlled parameterised gates, idle "
@@ -118,7 +118,7 @@ PROPS = {
     },
     "C02": {
         "world": "dsim.worlds.device.ExpectationWorld",
-        "tiers": {"quick": {"runs": 640, "chunk": 4, "run_cap_s": 900, "wall_cap_s": 800},
+        "tiers": {"quick": {"runs": 640, "chunk": 4, "run_cap_s": 900, "wall_cap_s": 700},
                   "thorough": {"runs": 16000, "chunk": 8, "run_cap_s": 1500, "wall_cap_s": 2700}},
         "rule": "one evaluation = one simulated run: 5-24 calls of get_expectation_value / get_variance / get_standard_error on four "
                 "long-lived backends (cirq exact, cirq shots, sympy, shot-only stub) for random operators (identity, complex "
@@ -136,7 +136,7 @@ PROPS = {
     },
     "C20": {
         "world": "dsim.worlds.phase.PhaseWorld",
-        "tiers": {"quick": {"runs": 1200, "chunk": 4, "run_cap_s": 900, "wall_cap_s": 800},
+        "tiers": {"quick": {"runs": 1200, "chunk": 4, "run_cap_s": 900, "wall_cap_s": 700},
                   "thorough": {"runs": 12000, "chunk": 8, "run_cap_s": 1500, "wall_cap_s": 2700}},
         "rule": "one evaluation = one simulated run of 4-18 steps: iterative QPE (register 1-6, 1-3 shots, two simulate() calls per "
                 "solver object) on eigenstates with exactly representable eigenphases (diagonal and non-diagonal commuting "
@@ -154,7 +154,7 @@ PROPS = {
     },
     "C07": {
         "world": "dsim.worlds.ansatz.AnsatzWorld",
-        "tiers": {"quick": {"runs": 800, "chunk": 3, "run_cap_s": 900, "wall_cap_s": 1000},
+        "tiers": {"quick": {"runs": 800, "chunk": 3, "run_cap_s": 900, "wall_cap_s": 900},
                   "thorough": {"runs": 8000, "chunk": 6, "run_cap_s": 1500, "wall_cap_s": 2700}},
         "rule": "one evaluation = one simulated run: one long-lived ansatz object (class, molecule, encoding, ordering and options drawn "
                 "per run from the catalogue of all built-in ansaetze) driven through 4-14 steps: build_circuit (default / keyword incl. "
@@ -174,7 +174,7 @@ PROPS = {
     },
     "C08": {
         "world": "dsim.worlds.solver.SolverWorld",
-        "tiers": {"quick": {"runs": 640, "chunk": 2, "run_cap_s": 900, "wall_cap_s": 1000},
+        "tiers": {"quick": {"runs": 640, "chunk": 2, "run_cap_s": 900, "wall_cap_s": 900},
                   "thorough": {"runs": 6000, "chunk": 4, "run_cap_s": 1500, "wall_cap_s": 2700}},
         "rule": "one evaluation = one simulated run: one VQESolver (ansatz, molecule or qubit Hamiltonian, encoding, ordering, ref_state / "
                 "projective / deflation / penalty options, exact or 2000 shots drawn per run) driven through 4-15 steps of "
